@@ -6,13 +6,18 @@ import json, os, glob, re
 
 ROOT = os.path.dirname(os.path.dirname(os.path.abspath(__file__)))
 
-# property -> (claim text, level_note, design_ref)   — only used when a unit serves the property
-CLAIMS = {
- "C01": ("Verus discharges, on text extracted mechanically from lib/src/merge.rs on every run, the contracts of get_simplified_mapping / apply_simplified_mapping / simplify / update_from_simplified / flatten against the signed-count specification, for every odd arity and any value type: a proof for all inputs, which is what the property quantifies over.",
-         "Trusted: the prelude shims (VxIter sequence model of the std/itertools adapters, Vec::swap/drain/rotate_left/extend contracts), PartialEq on the value type is equality, 64-bit usize; extraction rewrite rules of DESIGN §2.1 (listed per function in the evidence).", "§3 C01"),
- "C02": ("Verus discharges trivial_merge == the counting (cancellation) rule for every odd arity and both SameChange values on the extracted text, including that the in-code assert_eq! never fire.",
-         "Trusted: HashMap shim viewed as an association list, Eq/Hash lawful on T, values.len() < 2^31, extraction rules.", "§3 C02"),
-}
+def load_claims():
+    """units/<unit>/claim.json: {"C01": {"text":..., "note":..., "design_ref":...}, ...}"""
+    claims = {}
+    for p in sorted(glob.glob(os.path.join(ROOT, "units/*/claim.json"))):
+        for pid, c in json.load(open(p)).items():
+            if pid in claims:
+                claims[pid]["text"] += " | " + c["text"]
+                claims[pid]["note"] += " | " + c["note"]
+            else:
+                claims[pid] = dict(c)
+    return claims
+
 
 NA_REASONS = {
  "C05": "X/M-like: round trip of materialize_*/parse_conflict needs a full line-grammar spec over bstr pipelines in both directions; no contract within reach of Verus/Kani carries the property (DESIGN §4).",
@@ -52,11 +57,12 @@ def main():
         for l in open(p):
             if l.startswith("@serves "): served |= set(l.split()[1:])
     baseline = json.load(open("/root/.vp/BASELINE.json"))
+    CLAIMS = load_claims()
     checks, na = [], []
     for p in props:
         pid = p["id"]
         if pid in served and pid in CLAIMS:
-            text, note, ref = CLAIMS[pid]
+            text, note, ref = CLAIMS[pid]["text"], CLAIMS[pid]["note"], CLAIMS[pid].get("design_ref", "§3")
             checks.append({
                 "property_id": pid,
                 "quick_cmd": "./check %s --tier quick" % pid,
